@@ -3,7 +3,7 @@ import RreModel.C07.Model
 C06 — model of the incremental RETE engine:
   * `src/rete/working_memory.rs`  `WorkingMemory` (facts by handle, type index, retracted flag, next_id)
   * `src/rete/propagation.rs`     `IncrementalEngine` insert / update / retract / reset, `propagate_changes_for_type`,
-                                   `propagate_changes`, `fire_all` (liveness check, [fix-C06] re-validation of the rule node on the
+                                   `propagate_changes`, `fire_all` ([fix-C06b] only executed activations are counted; liveness check, [fix-C06] re-validation of the rule node on the
                                    matched fact, action on the flattened copy, write-back by type, re-propagation, action results)
   * `src/rete/network.rs` `evaluate_rete_ul_node_typed`, `src/rete/alpha.rs` `AlphaNode::matches_typed`,
     `src/rete/facts.rs` `FactValue::compare` — restricted to the typed core GRL produces for single-type rules
@@ -199,12 +199,13 @@ def dedup : List Nat → List Nat
   | [] => []
   | x :: t => if (dedup t).contains x then dedup t else x :: dedup t
 
-/-- `propagate_changes`: every type that has a live fact, every rule (no-loop rules that already fired are skipped),
-every live fact of the type -/
+/-- `propagate_changes`: every type that has a live fact, every rule that depends on the type ([fix-C06c]: as in
+`propagate_changes_for_type`; before the fix every rule was evaluated on the facts of every type, and a negated condition is
+vacuously true on a fact of a foreign type) except the no-loop rules that already fired, every live fact of the type -/
 def Engine.propagateAll (e : Engine) : Engine :=
   let types := dedup (e.wm.getAllFacts.map (·.ty))
   let r := types.foldl (fun p ty =>
-      (e.rules.filter (fun rule => !(rule.noLoop && p.1.fired.contains rule.name))).foldl
+      (e.rules.filter (fun rule => rule.ty == ty && !(rule.noLoop && p.1.fired.contains rule.name))).foldl
         (fun p rule => addMatches rule (e.wm.getByType ty) p) p) (e.ag, e.clock)
   { e with ag := r.1, clock := r.2 }
 
@@ -278,13 +279,29 @@ def Engine.fireOne (e : Engine) (a : Act) : Engine × Option Firing :=
               (match target with | some t => (e1.retract t).1 | none => e1) else e1
           ({ e2 with ag := e2.ag.mark a }, some { rule := rule.name, handle := h, data := f.data })
 
+/-- the tests of `fire_all` that `continue` (the same tests as in `fireOne`): rule unknown, matched fact retracted, or the
+re-validation of fix-C06 fails.  [fix-C06b] such an activation is dropped WITHOUT being counted against `max_iterations`. -/
+def Engine.skips (e : Engine) (a : Act) : Bool :=
+  match e.rules.find? (·.name == a.rule) with
+  | none => true
+  | some rule =>
+    match a.handle with
+    | none => true
+    | some h =>
+      match e.wm.get h with
+      | none => true
+      | some f => !rule.node.eval f.ty f.data
+
 /-- `self.agenda.get_next_activation()`: skipped activations are discarded even when nothing is returned -/
 def firePop (e : Engine) : Option Act × Engine := (e.ag.getNext.1, { e with ag := e.ag.getNext.2 })
 
-/-- `IncrementalEngine::fire_all`: the loop of C07 (`max_iterations = 1000`), collecting the firings -/
+/-- `IncrementalEngine::fire_all` [after fix-C06b]: C07's loop — pop until an activation passes the tests (`C07.incSkip`: the
+skipping steps are bounded by the number of pending activations, which is the fuel of that inner loop), then count it against
+`max_iterations = 1000` (`fuel` = executions still allowed; the valid activation that exceeds the bound is consumed and the
+loop breaks) and execute it, collecting the firings. -/
 def fireLoop : Nat → Engine → List Firing → Engine × List Firing
   | fuel, e, out =>
-    match firePop e with
+    match C07.incSkip firePop Engine.skips e.ag.acts.length e with
     | (none, e') => (e', out)
     | (some a, e') =>
       match fuel with
